@@ -4,8 +4,8 @@ CFG = dict(
     imports=["From Verif.C21 Require Import Model Spec.", "Close Scope N_scope."],
     checker="check_case",
     harness_dirs=["C19", "C21"],
-    n=dict(quick=300, thorough=6000),
-    shard=40,
+    n=dict(quick=140, thorough=6000),
+    shard=18,
     rule="even cases (block stream): one block of 4/8 addresses and 8-25 operations of the REAL allocationBlock methods "
          "(autoAssign with reserved ordinals, assign, release with ReleaseOptions{Address,Handle,SequenceNumber} incl. stale "
          "numbers / wrong handles / duplicates / already released addresses, releaseByHandle with and without sequence number, "
